@@ -79,15 +79,16 @@ SCOPE = ["equationOfMotion", "freeEnergy", "thermodynamics", "manager", "boltzma
 
 
 def rank_of(k: Optional[str]) -> Optional[int]:
-    if k in ("P2", "V2"):
+    if k in ("P2", "V2", "Q2"):
         return 2
-    if k in ("P1", "V1", "F"):
+    if k in ("P1", "V1", "Q1", "F"):
         return 1
     return None
 
 
 def base_kind(k):
-    return k[0] if isinstance(k, str) and k[0] in "PV" else k
+    # P location, V displacement-like (odd under the reflection of its field), Q per-field quantity that is even under reflections (V*V, V**2, |V|)
+    return k[0] if isinstance(k, str) and k[0] in "PVQ" else k
 
 
 class Affine:
@@ -314,7 +315,15 @@ class Affine:
                 self.site(fi, "product-of-locations", a, e, n(e)[:100])
                 return None
             if A == "V" and B == "V":
-                return "V" + rk   # component-wise product of displacement-like quantities (summed over fields afterwards)
+                return "Q" + rk   # component-wise product of two displacement-like quantities: even under the reflection of any field
+            if (A == "Q" and B == "V") or (A == "V" and B == "Q"):
+                return "V" + rk
+            if A == "Q" and B == "Q":
+                return "Q" + rk
+            if A == "Q":
+                return a
+            if B == "Q" and isinstance(e.op, ast.Mult):
+                return b
             if A == "V":
                 return a
             if B == "V" and isinstance(e.op, ast.Mult):
@@ -326,7 +335,12 @@ class Affine:
             if A == "P":
                 self.site(fi, "power-of-a-location", a, e, n(e)[:100])
                 return None
-            return a if A == "V" else None
+            if A == "V":
+                ex = e.right.value if isinstance(e.right, ast.Constant) and isinstance(e.right.value, int) else None
+                if ex is not None and ex % 2 == 0:
+                    return "Q" + str(rank_of(a) or 1)
+                return a
+            return a if A == "Q" else None
         return None
 
     def call(self, e, env, fi):
@@ -364,8 +378,18 @@ class Affine:
             over_fields = axn is not None and (n(axn) in ("1", "-1") or n(axn).endswith("overFieldTypes"))
             self.site(fi, "sum-over-fields" if over_fields or rank_of(a0) == 1 else "sum-over-points", a0, e, n(e)[:100])
             return None
-        if short in ("sum",) and isinstance(a0, str) and base_kind(a0) == "V":
+        if short in ("sum", "mean") and isinstance(a0, str) and base_kind(a0) == "Q":
             return "S"
+        if short in ("sum", "mean") and isinstance(a0, str) and base_kind(a0) == "V":
+            # the sum over the fields of a quantity that is odd under the reflection of one field depends on each field's sign convention
+            axn = kwarg(e, "axis", 1)
+            over_points = axn is not None and (n(axn) == "0" or n(axn).endswith("overFieldPoints")) and rank_of(a0) == 2
+            if over_points:
+                return "V1"
+            self.site(fi, "sum-of-odd-over-fields", a0, e, n(e)[:100])
+            return None
+        if short in ("abs", "absolute") and isinstance(a0, str) and base_kind(a0) == "V":
+            return "Q" + str(rank_of(a0) or 1)
         if short == "concatenate":
             parts = a0 if isinstance(a0, tuple) else ()
             ks = {base_kind(p) for p in parts if isinstance(p, str)}
@@ -417,8 +441,8 @@ def rules(chk: Check) -> None:
     for fi, what, node, text, key in A.sites:
         seen.add(key)
         listed = key in NON_AFFINE_SITES
-        chk.ob("R08.1", fi.where(node), f"non-affine use of a field-space location ({what}): `{text}`", listed,
-               NON_AFFINE_SITES.get(key, "not in the triaged table: the result would change under a translation of the field-space origin"), key=key)
+        chk.ob("R08.1", fi.where(node), f"non-covariant use of a field-space quantity ({what}): `{text}`", listed,
+               NON_AFFINE_SITES.get(key, "not in the triaged table: the result would change under a relabelling of field space (translation of the origin / reflection of a field)"), key=key)
     chk.ob("R08.1", "src/WallGo", f"field-space locations are combined affinely everywhere else ({A.typed} expression nodes typed in {nfun} functions: "
            "P - P -> V, P + V -> P, number * V -> V)", True, key="affine-elsewhere")
     # the tanh ansatz: fields = vevLowT + S * (vevHighT - vevLowT)  (term level)
@@ -553,6 +577,12 @@ def rules(chk: Check) -> None:
     idx = [n(x) for x in own_nodes(fu.node) if isinstance(x, ast.Subscript) and (has(x.value, W, cu) or has(x.value, O, cu))]
     chk.ob("R08.4", fu.where(), "grid envelope: max / min over all fields of (+-1 - offset_i) * width_i -- no vev enters and no field is singled out", ok and ok_t and ok_c and not idx,
            f"thickness {n(thick)}; centre {n(centre)}; indexed: {idx}", key="envelope")
+    # R08.5: the width bounds reach the widths and the offset bounds the offsets (offsets change sign under a permutation of the fields,
+    # widths do not: exchanging the two bound pairs makes the result depend on the order of the fields; plumbing rule shared with C01 R01.7)
+    from ..core import Remap
+    from . import c01
+    c01.r01_7(Remap(chk, {"R01.7": "R08.5"}, only=lambda r, k, w: k in ("plumbing|EOM.wallThicknessBounds", "plumbing|EOM.wallOffsetBounds")))
+    chk.floor("R08.5", 2)
     chk.floor("R08.1", 3)
     chk.floor("R08.2", 4)
     chk.floor("R08.3", 7)
